@@ -259,4 +259,52 @@ theorem t24_short (cfg : Cfg) (bs : List UInt8) (ht : field bs 0 6 = 24) (h40 : 
   · intro hp hL; rw [if_pos hp]; exact ite_short (by omega)
   · intro hp hL; rw [if_neg (by omega), if_pos hp]; exact ite_short (by omega)
 
+/-! ### 3. Nothing is fabricated from bits beyond the end -/
+
+/-- A decoded message implies the mandatory part of its type was present … -/
+theorem ok_implies_mandatory (cfg : Cfg) (bs : List UInt8) (m : Msg) (h : parseMessage cfg bs = ok m) :
+    mandatory (field bs 0 6) ≤ 8 * bs.length := by
+  by_cases hlt : 8 * bs.length < mandatory (field bs 0 6)
+  · obtain ⟨e, he⟩ := too_short_err cfg bs hlt
+    rw [he] at h; cases h
+  · omega
+
+/-- … and every row of the type's layout tables lies inside that mandatory part: each reported
+    integer, flag, scaled or optional field is read from bits that exist. (Rows of the optional
+    second halves — type 16's second station, the list elements of types 7/13/20 — are covered by
+    the count theorems above: an element is reported only when all its bits are present.) -/
+theorem rows_within_mandatory :
+    (∀ e ∈ Layout.t01, e.off + e.w ≤ mandatory 1) ∧ (∀ e ∈ Layout.t04, e.off + e.w ≤ mandatory 4) ∧
+    (∀ e ∈ Layout.t05, e.off + e.w ≤ mandatory 5) ∧ (∀ e ∈ Layout.t06, e.off + e.w ≤ mandatory 6) ∧
+    (∀ e ∈ Layout.t08, e.off + e.w ≤ mandatory 8) ∧ (∀ e ∈ Layout.t09, e.off + e.w ≤ mandatory 9) ∧
+    (∀ e ∈ Layout.t10, e.off + e.w ≤ mandatory 10) ∧ (∀ e ∈ Layout.t12, e.off + e.w ≤ mandatory 12) ∧
+    (∀ e ∈ Layout.t16one, e.off + e.w ≤ mandatory 16) ∧ (∀ e ∈ Layout.t17, e.off + e.w ≤ mandatory 17) ∧
+    (∀ e ∈ Layout.t18, e.off + e.w ≤ mandatory 18) ∧ (∀ e ∈ Layout.t19, e.off + e.w ≤ mandatory 19) ∧
+    (∀ e ∈ Layout.t21, e.off + e.w ≤ mandatory 21) ∧ (∀ e ∈ Layout.t27, e.off + e.w ≤ mandatory 27) ∧
+    (∀ e ∈ Scaled.t01, e.off + e.w ≤ mandatory 1) ∧ (∀ e ∈ Scaled.t04, e.off + e.w ≤ mandatory 4) ∧
+    (∀ e ∈ Scaled.t05, e.off + e.w ≤ mandatory 5) ∧ (∀ e ∈ Scaled.t09, e.off + e.w ≤ mandatory 9) ∧
+    (∀ e ∈ Scaled.t17, e.off + e.w ≤ mandatory 17) ∧ (∀ e ∈ Scaled.t18, e.off + e.w ≤ mandatory 18) ∧
+    (∀ e ∈ Scaled.t21, e.off + e.w ≤ mandatory 21) ∧ (∀ e ∈ Scaled.t27, e.off + e.w ≤ mandatory 27) ∧
+    (∀ e ∈ Opt.t01, e.off + e.w ≤ mandatory 1) ∧ (∀ e ∈ Opt.t04, e.off + e.w ≤ mandatory 4) ∧
+    (∀ e ∈ Opt.t05, e.off + e.w ≤ mandatory 5) ∧ (∀ e ∈ Opt.t09, e.off + e.w ≤ mandatory 9) ∧
+    (∀ e ∈ Opt.t18, e.off + e.w ≤ mandatory 18) := by
+  decide
+
+/-- Type 24: part A's rows lie within 160 bits, part B's within 168. -/
+theorem rows_within_t24 :
+    (∀ e ∈ Layout.t24A, e.off + e.w ≤ 160) ∧ (∀ e ∈ Layout.t24B, e.off + e.w ≤ 168) := by decide
+
+/-- List elements: element `i` of an acknowledgement list / reservation list is reported only if
+    its last bit is present. -/
+theorem list_elements_present (bs : List UInt8) (i : Nat) :
+    (i < min 4 ((8 * bs.length - 40) / 32) → ∀ e ∈ Layout.ack i, e.off + e.w ≤ 8 * bs.length) ∧
+    (i < min 4 ((8 * bs.length - 40) / 30) → ∀ e ∈ Layout.reservation i, e.off + e.w ≤ 8 * bs.length) := by
+  constructor
+  · intro hi e he
+    simp only [Layout.ack, List.mem_cons, List.not_mem_nil, or_false] at he
+    rcases he with rfl | rfl <;> simp only [] <;> omega
+  · intro hi e he
+    simp only [Layout.reservation, List.mem_cons, List.not_mem_nil, or_false] at he
+    rcases he with rfl | rfl | rfl | rfl <;> simp only [] <;> omega
+
 end AisVerif.C14
